@@ -1,6 +1,6 @@
 package tree
 
-// Replay adapter (injected via `go test -overlay`): GetBranchesHighesPrecedence on hand-built intended-store indexes (C08, C11).
+// Replay adapter (injected via `go test -overlay`): GetBranchesHighesPrecedence on intended-store indexes built by the real code from a mocked store (C08, C11).
 
 import (
 	"context"
@@ -9,7 +9,10 @@ import (
 	"strings"
 	"testing"
 
+	"github.com/sdcio/data-server/mocks/mockcacheclient"
 	"github.com/sdcio/data-server/pkg/cache"
+	"github.com/sdcio/data-server/pkg/utils/testhelper"
+	"go.uber.org/mock/gomock"
 )
 
 func vrIsPathPrefix(p, k []string) bool {
@@ -44,7 +47,7 @@ func TestVerifReplayBranches(t *testing.T) {
 	n := 0
 	for mask := 0; mask < 1<<len(pool); mask++ {
 		n++
-		idx := map[string]UpdateSlice{}
+		var stored []*cache.Update
 		want := int32(math.MaxInt32)
 		var desc []string
 		collision := false
@@ -53,7 +56,7 @@ func TestVerifReplayBranches(t *testing.T) {
 				continue
 			}
 			key := strings.Join(e.path, KeysIndexSep)
-			idx[key] = append(idx[key], cache.NewUpdate(e.path, []byte{1}, e.prio, fmt.Sprintf("owner%d", i), 0))
+			stored = append(stored, cache.NewUpdate(e.path, []byte{1}, e.prio, fmt.Sprintf("owner%d", i), 0))
 			desc = append(desc, fmt.Sprintf("%s@%d", strings.Join(e.path, "/"), e.prio))
 			if vrIsPathPrefix(query, e.path) {
 				if e.prio < want {
@@ -63,7 +66,11 @@ func TestVerifReplayBranches(t *testing.T) {
 				collision = true
 			}
 		}
-		c := &TreeCacheClientImpl{intendedStoreIndex: idx}
+		// the index is built by the real code from the keys of the (mocked) intended store
+		mockCtrl := gomock.NewController(t)
+		cacheClient := mockcacheclient.NewMockClient(mockCtrl)
+		testhelper.ConfigureCacheClientMock(t, cacheClient, stored, []*cache.Update{}, []*cache.Update{}, [][]string{})
+		c := NewTreeCacheClient("dev1", cacheClient)
 		got := c.GetBranchesHighesPrecedence(context.Background(), query)
 		if got != want {
 			in := fmt.Sprintf("index=[%s],path=choices/case1", strings.Join(desc, " "))
